@@ -469,6 +469,7 @@ type Task struct {
 	oretDecl  map[string]bool
 	pureDone  map[string]bool
 	covers    []*Obligation
+	callCovers [][2]*Obligation // per contract application: path reachable before / after assuming the callee's postconditions
 	inlined   map[string]bool
 	contractsUsed map[string]bool
 	curFn     string
